@@ -3,6 +3,7 @@
 package main
 
 import (
+	"sync"
 	"bytes"
 	"fmt"
 	"math/big"
@@ -146,6 +147,54 @@ func genC12(c *Ctx) {
 			})
 			c.Case("pk-of-aggregated-key-history", "pk.of 0x"+sum.Text(16), ans)
 		}
+	}
+	// the first PublicKey() calls on a fresh private key made by several goroutines at once: whoever wins, every
+	// caller must get sk*g2 (a cache slot published before it is filled would hand out a half-built key)
+	nConc := 12
+	if c.thorough() {
+		nConc = 200
+	}
+	for it := 0; it < nConc; it++ {
+		k := c.randScalar()
+		kind := it % 3
+		ans := guard(func() string {
+			var sk crypto.PrivateKey
+			switch kind {
+			case 0:
+				sk = skFromInt(k)
+			case 1:
+				sk, _ = crypto.DecodePrivateKey(crypto.BLSBLS12381, be(k, 32))
+			default:
+				a := c.randScalar()
+				b := new(big.Int).Mod(new(big.Int).Sub(new(big.Int).Add(k, blsR), a), blsR)
+				if b.Sign() == 0 {
+					sk = skFromInt(k)
+				} else {
+					sk, _ = crypto.AggregateBLSPrivateKeys([]crypto.PrivateKey{skFromInt(a), skFromInt(b)})
+				}
+			}
+			const G = 8
+			encs := make([]string, G)
+			start := make(chan struct{})
+			var wg sync.WaitGroup
+			for g := 0; g < G; g++ {
+				wg.Add(1)
+				go func(g int) {
+					defer wg.Done()
+					<-start
+					encs[g] = hx(sk.PublicKey().Encode())
+				}(g)
+			}
+			close(start)
+			wg.Wait()
+			for g := 1; g < G; g++ {
+				if encs[g] != encs[0] {
+					return "ok " + encs[g] + " concurrent-first-calls-disagree-with " + encs[0]
+				}
+			}
+			return "ok " + encs[0]
+		})
+		c.Case("pk-concurrent-first-use", "pk.of 0x"+k.Text(16), ans)
 	}
 	// mapToFr on many lengths (observed through the BLS key generation only indirectly): public API has no direct entry
 	// public keys of chosen scalars on the three curves are covered by C05 (pk.of / ecdsa pkof)
